@@ -889,16 +889,16 @@ pub fn gen(rng: &mut Rng, thorough: bool, em: &mut Emitter) {
             emit(em, verify_case(mode, Algorithm::HmacSha256, &key, 1_600_000_000, &msg, &kn, &s.rdata(&mac), &pm));
         }
     }
-    let n = if thorough { 6000 } else { 700 };
+    let n = if thorough { 6000 } else { 1500 };
     for _ in 0..n {
         sign_and_verify(rng, em, thorough, false);
     }
     // every covered position of small messages
-    let n = if thorough { 1200 } else { 12 };
+    let n = if thorough { 1200 } else { 20 };
     for _ in 0..n {
         sign_and_verify(rng, em, false, true);
     }
-    let n = if thorough { 4000 } else { 400 };
+    let n = if thorough { 4000 } else { 800 };
     for _ in 0..n {
         write_and_verify(rng, em, thorough, false);
     }
